@@ -381,6 +381,9 @@ def eval_pos(t, env):
     if t[0] == "cond":
         c = eval_pos(t[1], env)
         return None if c is None else eval_pos(t[2] if c else t[3], env)
+    if t[0] == "call" and t[1] in (("ref", "min"), ("ref", "max")) and len(t) == 4:
+        a, b = eval_pos(t[2], env), eval_pos(t[3], env)
+        return None if a is None or b is None else (min(a, b) if t[1][1] == "min" else max(a, b))
     if t[0] == "bin":
         if t[1] in ("&&", "||"):
             a = eval_pos(t[2], env)
@@ -415,9 +418,23 @@ def rule_bound(rep, S):
         cond = ir.sx(raw[0])
         # is the guarded branch the mutating one?
         def mutates(node):
-            return any(fs.storage_call(x) in ("set_size", "adjust_size") or fs.this_member_call(x) in ("insert", "erase", "replace") for x in ir.walk_expr(node))
+            for x in ir.walk_expr(node):
+                if fs.storage_call(x) in ("set_size", "adjust_size") or fs.this_member_call(x) in ("insert", "erase", "replace"):
+                    return True
+                if fs.this_member_call(x) is not None:
+                    tg = fs.member_target(d, x)
+                    if tg is not None and ir.has_body(tg) and not re.search(r"\)\s*const", ir.qtype(tg)) and tg.get("name") not in ("data", "begin", "end"):
+                        return True      # a non-const helper of the class (e.g. an extracted open_gap/grow_by)
+            return False
         then_mut = mutates(raw[1])
         else_mut = len(raw) > 2 and mutates(raw[2])
+        if not then_mut and not else_mut and len(raw) == 2:
+            # guard written as an early return: the mutation is what follows the if
+            stmts_ = ir.kids(ir.body(fn))
+            after = stmts_[stmts_.index(ifs[0]) + 1:] if ifs[0] in stmts_ else []
+            returns_early = any(x.get("kind") == "ReturnStmt" for x in ir.walk_expr(raw[1]))
+            if returns_early and any(mutates(x) for x in after):
+                else_mut = True
         if then_mut == else_mut:
             rep.inconclusive(R, lab, "position guard", where=d.where(ifs[0]), detail="cannot tell which branch mutates")
             continue
@@ -626,7 +643,9 @@ def rule_order(rep, d, S):
             ln = a[2]
             if ln[0] == "ref" and ln[1] in linit:
                 ln = linit[ln[1]]
-            ok = a[0] == ("ref", s1) and a[1] == ("ref", s2) and ln[0] == "call" and ln[1] == ("ref", "min") and set(ln[2:]) == {("ref", c1), ("ref", c2)}
+            # the length is min(count1, count2) however it is written: evaluated under the three orderings of the counts
+            islen = all(eval_pos(ln, {c1: x_, c2: y_}) == min(x_, y_) for x_, y_ in ((1, 2), (2, 2), (2, 1), (0, 3), (3, 0)))
+            ok = a[0] == ("ref", s1) and a[1] == ("ref", s2) and islen
             det = "compares `%s`" % ir.show(tc[0])
         (rep.holds if ok else rep.violates)(R, lab, "common prefix compared in operand order", where=d.where(fn), **({} if ok else {"detail": det + "; expected traits::compare(s1, s2, min(count1, count2))"}))
         resvars = {k for k, v in linit.items() if v[0] == "call" and v[1] == ("ref", "compare")}
@@ -671,56 +690,110 @@ def rule_order(rep, d, S):
 # ---------------------------------------------------------------------------------------------------------------------
 # C01.window
 def rule_window(rep, S):
-    """search loops of the form `for (...; ...; n -= A, p = B)`: the window end p + n must be invariant"""
+    """search loops that keep a cursor p and a remaining count n (`n -= A; p = B` in the increment of a for or the body of a while):
+    one iteration, executed symbolically in statement order, must leave p + n unchanged"""
     R = "C01.window"
     d = S.d
     found = 0
     for fn in S.fns:
         if not (fn.get("name") or "").startswith(("find", "rfind")):
             continue
-        for loop in [n for n in ir.walk_expr(fn) if n.get("kind") == "ForStmt"]:
-            raw = loop.get("inner", [])
-            inc = raw[3] if len(raw) > 3 and isinstance(raw[3], dict) and raw[3].get("kind") else None
-            if inc is None:
-                continue
-            t = ir.sx(inc)
+        for loop in [n for n in ir.walk_expr(fn) if n.get("kind") in ("ForStmt", "WhileStmt", "DoStmt")]:
+            raw = [x for x in loop.get("inner", [])]
+            seq = []
+            if loop.get("kind") == "ForStmt":
+                body = raw[4] if len(raw) > 4 else None
+                inc = raw[3] if len(raw) > 3 and isinstance(raw[3], dict) and raw[3].get("kind") else None
+            elif loop.get("kind") == "WhileStmt":
+                body, inc = (raw[-1] if raw else None), None
+            else:
+                body, inc = (raw[0] if raw else None), None
+            if isinstance(body, dict) and body.get("kind") == "CompoundStmt":
+                seq += [x for x in ir.kids(body) if x.get("kind") in ("BinaryOperator", "CompoundAssignOperator", "UnaryOperator", "ExprWithCleanups", "ParenExpr")]
+            if inc is not None:
+                seq.append(inc)
             parts = []
 
             def flat(x):
-                if x[0] == "bin" and x[1] == ",":
-                    flat(x[2])
-                    flat(x[3])
+                x = ir.strip(x)
+                if x.get("kind") == "BinaryOperator" and x.get("opcode") == ",":
+                    for k_ in ir.ekids(x):
+                        flat(k_)
                 else:
                     parts.append(x)
-            flat(t)
-            cnt = [p for p in parts if p[0] == "bin" and p[1] in ("-=", "+=") and p[2][0] == "ref"]
-            ptr = [p for p in parts if p[0] == "bin" and p[1] == "=" and p[2][0] == "ref"]
-            if len(cnt) != 1 or len(ptr) != 1:
-                continue
-            found += 1
-            nvar, pvar = cnt[0][2][1], ptr[0][2][1]
+            for x in seq:
+                flat(x)
+            env = {}
 
             def symmap(x):
                 if x[0] == "ref":
-                    return x[1]
+                    return env.get(x[1], x[1])
                 return None
-            dn = linear.lin(cnt[0][3], symmap)
-            newp = linear.lin(ptr[0][3], symmap)
-            lab = "%s::%s" % (S.tag, S.label(fn))
-            cons = "loop step `%s`" % d.text(inc)[:70].replace("\n", " ")
-            if dn is None or newp is None:
-                rep.inconclusive(R, lab, cons, where=d.where(inc), detail="step is not linear in the cursor variables")
+
+            def lin_of(node):
+                t = ir.sx(node)
+                lf = linear.lin(t, lambda x: x[1] if x[0] == "ref" else None)
+                if lf is None:
+                    return None
+                out = Lin()
+                for k_, c_ in lf.items():
+                    if k_ in env:
+                        out = out + Lin({a_: b_ * c_ for a_, b_ in env[k_].items()})
+                    else:
+                        out = out + Lin({k_: c_})
+                return out
+            counts, cursors, bad = [], [], None
+            for x in parts:
+                k_ = x.get("kind")
+                ks = ir.ekids(x)
+                if k_ in ("BinaryOperator", "CompoundAssignOperator") and x.get("opcode") in ("=", "-=", "+=") and ir.strip(ks[0]).get("kind") == "DeclRefExpr":
+                    nm = (ir.strip(ks[0]).get("referencedDecl") or {}).get("name")
+                    rhs = lin_of(ks[1])
+                    isptr = "*" in ir.qtype(ks[0]) or "pointer" in ir.qtype(ks[0])
+                    cur = env.get(nm, Lin({nm: 1}))
+                    if x.get("opcode") == "=":
+                        if rhs is None:
+                            env[nm] = Lin({nm + "'": 1})       # re-assigned from a call (the next hit): a fresh value
+                        else:
+                            env[nm] = rhs
+                            if isptr:
+                                cursors.append(nm)
+                    else:
+                        if rhs is None:
+                            bad = x
+                            env[nm] = Lin({nm + "'": 1})
+                        else:
+                            env[nm] = cur - rhs if x.get("opcode") == "-=" else cur + rhs
+                            if not isptr:
+                                counts.append(nm)
+                elif k_ == "UnaryOperator" and x.get("opcode") in ("++", "--") and ir.strip(ks[0]).get("kind") == "DeclRefExpr":
+                    nm = (ir.strip(ks[0]).get("referencedDecl") or {}).get("name")
+                    cur = env.get(nm, Lin({nm: 1}))
+                    env[nm] = cur + Lin({"": 1 if x.get("opcode") == "++" else -1})
+                    if "*" in ir.qtype(ks[0]):
+                        cursors.append(nm)
+                    else:
+                        counts.append(nm)
+            counts = sorted(set(counts))
+            cursors = sorted(set(cursors))
+            if len(counts) != 1 or len(cursors) != 1:
                 continue
-            delta_n = -dn if cnt[0][1] == "-=" else dn
-            delta_p = newp - Lin({pvar: 1})
-            total = delta_n + delta_p
+            found += 1
+            nvar, pvar = counts[0], cursors[0]
+            lab = "%s::%s" % (S.tag, S.label(fn))
+            where = d.where(inc if inc is not None else loop)
+            cons = "loop step of the (%s, %s) search window" % (pvar, nvar)
+            if bad is not None:
+                rep.inconclusive(R, lab, cons, where=where, detail="step is not linear in the cursor variables")
+                continue
+            total = env[nvar] + env[pvar] - Lin({nvar: 1}) - Lin({pvar: 1})
             if total == Lin():
-                rep.holds(R, lab, cons, where=d.where(inc), detail="%s + %s is invariant (cursor advances by exactly what the remaining count loses)" % (pvar, nvar))
+                rep.holds(R, lab, cons, where=where, detail="%s + %s is invariant (cursor advances by exactly what the remaining count loses)" % (pvar, nvar))
             else:
-                rep.violates(R, lab, cons, where=d.where(inc),
+                rep.violates(R, lab, cons, where=where,
                              detail="the search window end %s + %s changes by %s per iteration: the remaining count no longer matches the cursor, so the search can run past size()" % (pvar, nvar, total.show()))
     if found == 0:
-        rep.inconclusive(R, S.tag, "search loops", detail="no cursor/remaining-count loop found in the find family")
+        rep.note("%s: no cursor/remaining-count search loop in the find family (index-based loops carry no window obligation)" % S.tag)
 
 
 # ---------------------------------------------------------------------------------------------------------------------
